@@ -51,7 +51,7 @@ VARIABLES counter,      \* _sync:seq
 impl   == <<counter, unusedDocs, last, max, batch, reserved, alive, pc, pend>>
 ghost  == <<grow, held, released, dups, relDup, aboveBad>>
 vars   == <<impl, ghost, hist>>
-view   == <<impl, ghost>>
+view   == <<impl, ghost, Len(hist)>>      \* depth kept: every state is expanded to the full bound whatever the search order
 
 Idle0 == [st |-> "idle", x |-> 0, sync |-> 0]
 Min2(a, b) == IF a < b THEN a ELSE b
